@@ -95,7 +95,8 @@ class ModelCache:
         # exceptions.
         try:
             return all(self.eval_ast(c) for c in constraints)
-        except errors.ClaripyZeroDivisionError:
+        except (errors.ClaripyZeroDivisionError, errors.BackendError):
+            # (or an operation the concrete backend declines, e.g. a rounding mode it does not implement)
             return False
 
     def eval_list(self, asts, allow_unconstrained: bool = True) -> tuple:
@@ -277,8 +278,9 @@ class ModelCacheMixin:
         for m in self._get_models(extra_constraints):
             try:
                 results.add(m.eval_list(asts, allow_unconstrained=allow_unconstrained))
-            except (ZeroDivisionError, KeyError):
-                # this model cannot be evaluated concretely (e.g. it divides by zero, which the solver gives a value):
+            except (ZeroDivisionError, KeyError, errors.BackendError):
+                # this model cannot be evaluated concretely (e.g. it divides by zero, which the solver gives a value, or
+                # it needs a floating-point rounding mode that the concrete backend declines):
                 # the values read from the cache are then not known to be all the values the models witness
                 if skipped is not None:
                     skipped.append(m)
